@@ -168,6 +168,30 @@ func RunShards(f func(shard int, r *Rng, o *Out, n int), replay func(cs []Case, 
 	wg.Wait()
 }
 
+// RunShardsSerial is RunShards without parallelism (for code under test with process-global state).
+func RunShardsSerial(f func(shard int, r *Rng, o *Out, n int), replay func(cs []Case, o *Out)) {
+	if rp := ReplayFile(); rp != "" {
+		o := Open(0)
+		replay(ReadCases(rp), o)
+		o.Close()
+		return
+	}
+	sh := Shards()
+	n := N()
+	for s := 0; s < sh; s++ {
+		o := Open(s)
+		cnt := n / sh
+		if s < n%sh {
+			cnt++
+		}
+		f(s, NewRng(Seed()*1000003+uint64(s)), o, cnt)
+		o.Close()
+	}
+}
+
+// Fields splits an operation line.
+func Fields(s string) []string { return strings.Fields(s) }
+
 func Atoi(s string) int {
 	n, err := strconv.Atoi(s)
 	if err != nil {
